@@ -38,6 +38,7 @@ func runC07(c *Check) {
 	r.LA.ReportLeaks(c, P+".O8", r.Funcs)
 	c04LookupCopy(c, P+".O2", r)
 	c07Decorator(c, P)
+	c04NoSharedWrites(c, P+".O6", r)
 }
 
 // isCancelCase: receive from ctx.Done() or from one of the given signal fields.
